@@ -155,8 +155,9 @@ def cubes_history(tier, seed):
         for first in range(n):
             for start_main in (True, False):
                 for kind in ('plain', 'deprecated'):
-                    out.append({'k': 4 if kind == 'plain' else 3,
-                                'first': first, 'start_main': start_main,
+                    # measured: one more step multiplies a cube by 26
+                    out.append({'k': 3, 'first': first,
+                                'start_main': start_main,
                                 'kind': kind, 'files': files})
     return out
 
@@ -226,7 +227,7 @@ def evidence(tier):
                        'file, plain and deprecated registered defaults; '
                        'compared with a fresh enforcer after every step for '
                        '%r and all role subsets' % (
-                           '2-3' if q else '3-4', FILE_OPS, 3 if q else 4,
+                           '2-3' if q else '3', FILE_OPS, 3 if q else 4,
                            NAMES),
             'long': '%d seeded histories of %d steps' % (
                 16 if q else 300, 12 if q else 40),
